@@ -82,6 +82,7 @@ func checks() []check {
 			{Name: "instance-limits", Pkg: "pkg/aliyun/client", Run: "^TestVerifC19Limits$"},
 			{Name: "daemon-pool-config", Pkg: "daemon", Run: "^TestVerifC19PoolConfig$"},
 			{Name: "node-cr-flavor", Pkg: "pkg/eni", Run: "^TestVerifC19Flavor$"},
+			{Name: "node-advertisement", Pkg: "pkg/controller/node", Run: "^TestVerifC19Advertised$"},
 		}},
 		{ID: "C20", Level: "model_checking", Parts: []part{
 			{Name: "config-merge", Pkg: "types/daemon", Run: "^TestVerifC20Merge$"},
